@@ -21,14 +21,17 @@ def main():
     ctx = core.Ctx(a.prop, tier, a.seed)
     try:
         rc = mod.run(ctx, replay=replay)
-        if replay is not None and rc == 0 and replay.get('case') is not None:
+        if replay is not None and rc == 0 and replay.get('case') is not None and not os.environ.get('VERIF_REPLAY_STRICT'):
             # the single recorded case did not reproduce in isolation (it may depend on the run's context):
             # repeat the whole deterministic run it came from
             print('replay: single case did not reproduce, repeating the full run with seed %d' % a.seed)
             rc = mod.run(core.Ctx(a.prop, tier, a.seed), replay=None)
     except Exception:
         traceback.print_exc()
-        if replay is not None:
+        if replay is not None and os.environ.get('VERIF_REPLAY_STRICT'):
+            print('replay (strict): case could not be re-run in isolation')
+            rc = 3
+        elif replay is not None:
             try:
                 print('replay: case could not be re-run in isolation, repeating the full run with seed %d' % a.seed)
                 rc = mod.run(core.Ctx(a.prop, tier, a.seed), replay=None)
